@@ -2520,16 +2520,24 @@ def _move_before_scope(
 
 
 def _move_after_scope(
-    scope: ast.AST, nodes: Iterable[ast.AST]
-) -> Tuple[Collection[ast.AST], Collection[ast.AST]]:
+    scope: ast.AST, nodes: Iterable[ast.AST], source: str
+) -> Tuple[Collection[Tuple[core.Range, str]], Collection[ast.AST]]:
     removals = set(nodes)
     last_node = max(removals, key=lambda node: node.lineno)
-    replacement = copy.copy(last_node)
-    replacement.col_offset = scope.col_offset
-    replacement.lineno = max(x.lineno for x in core.walk(scope, ast.AST(lineno=int))) + 1
-    additions = {replacement}
+    # The statement goes right behind the end of the scope, on a line of its own with the indentation
+    # of the scope. A position derived from the line that follows the scope would depend on whatever
+    # that line happens to be (a dedented statement, an else clause, the end of the file).
+    end = core.get_charnos(scope, source).end
+    code = textwrap.indent(core.unparse(last_node), " " * scope.col_offset)
+    additions = {(core.Range(end, end), "\n" + code)}
 
     return additions, removals
+
+
+def _is_moved_pass(additions: Collection) -> bool:
+    nodes = [a for a in additions if isinstance(a, ast.AST)]
+    texts = [a[1].strip() for a in additions if isinstance(a, tuple)]
+    return core.match_template(nodes, [ast.Pass]) or texts == ["pass"]
 
 
 @processing.fix
@@ -2552,7 +2560,7 @@ def breakout_common_code_in_ifs(source: str) -> str:
         if not has_namedexpr and _is_same_code(*start_branches):
             additions, removals = _move_before_scope(node, start_branches)
         elif _is_same_code(*end_branches):
-            additions, removals = _move_after_scope(node, end_branches)
+            additions, removals = _move_after_scope(node, end_branches, source)
 
         try:
             start_branches = list(_all_branches(body[0], orelse[0], expand_ifs_on="start"))
@@ -2563,22 +2571,25 @@ def breakout_common_code_in_ifs(source: str) -> str:
             if not has_namedexpr and _is_same_code(*start_branches):
                 additions, removals = _move_before_scope(node, start_branches)
             elif _is_same_code(*end_branches):
-                additions, removals = _move_after_scope(node, end_branches)
+                additions, removals = _move_after_scope(node, end_branches, source)
             else:
                 end_nonblocking_branches = [
                     branch for branch in end_branches if not core.is_blocking(branch)
                 ]
                 count = len(end_nonblocking_branches)
                 if count >= 2 and _is_same_code(*end_nonblocking_branches):
-                    additions, removals = _move_after_scope(node, end_nonblocking_branches)
+                    additions, removals = _move_after_scope(node, end_nonblocking_branches, source)
 
-        if core.match_template(list(additions), [ast.Pass]):
+        if _is_moved_pass(additions):
             continue
 
         if additions and removals:
             transaction += 1
             for a in additions:
-                yield None, a, transaction
+                if isinstance(a, tuple):
+                    yield a[0], a[1], transaction
+                else:
+                    yield None, a, transaction
             for r in removals:
                 yield r, None, transaction
 
@@ -2604,13 +2615,16 @@ def breakout_common_code_in_ifs(source: str) -> str:
             if not has_namedexpr and _is_same_code(*start_branches):
                 additions, removals = _move_before_scope(node, start_branches)
 
-        if core.match_template(list(additions), [ast.Pass]):
+        if _is_moved_pass(additions):
             continue
 
         if additions and removals:
             transaction += 1
             for a in additions:
-                yield None, a, transaction
+                if isinstance(a, tuple):
+                    yield a[0], a[1], transaction
+                else:
+                    yield None, a, transaction
             for r in removals:
                 yield r, None, transaction
 
